@@ -63,11 +63,13 @@ CHECKS = {
   ),
   'C17': dict(
     engine='vx',
-    technique='Verus contracts on the real Module symbol/export operations over abstract map/set views',
+    technique='Verus contracts on the real Module symbol/export operations over abstract map/set views, and on the real op_import / op_import_symbol / op_export handlers against those contracts',
     design_ref='DESIGN.md §4 C17, §10',
     level_text=('Unbounded proof on the extracted real functions: get_exported_symbol_by_name yields Some(v) iff the name is exported, and then v is the symbol\'s current value; export_symbol of an unknown or already exported name is an error and changes nothing, otherwise adds exactly that name (and the import object\'s field); '
-                'set_symbol_by_name/by_slot write exactly one slot or fail without change; insert_symbol gives a new name the next dense slot. Only these operations are decided.'),
-    level_note=('Trusted: hashbrown map/set as mathematical map/set, UniqueVector as Vec (vx/units/module/prelude.rs), rewrites R4/R6. Not decided: once-only execution of module bodies (op_import retry protocol, module cache), path resolution, module_instance construction.'),
+                'set_symbol_by_name/by_slot write exactly one slot or fail without change; insert_symbol gives a new name the next dense slot. '
+                'The import handlers: a cached or freshly loaded module yields EXACTLY get_exported_symbol_by_name(name) (a value iff exported, else an ImportError, also on the cache-hit path) or its import object; a loaded module enters the cache under its resolved path; '
+                'a compiled-but-not-run module is handed to a new fiber, the importer sleeps and re-executes the same instruction (ip rewound to the opcode); export errors surface as ExportError.'),
+    level_note=('Trusted: hashbrown map/set as mathematical map/set, UniqueVector as Vec (vx/units/module/prelude.rs), rewrites R4/R6. Not decided: import_module / load_missing_module (file system, compile) — the loader's answer is uninterpreted, so 'the body runs exactly once' is NOT concluded; path resolution (cache-key collisions), module_instance construction.'),
   ),
   'C01': dict(
     engine='vx',
